@@ -2,11 +2,13 @@
 //! Every `h_*` symbol is one proof obligation: symbolic inputs come from `vf::any_*`, the property
 //! is a set of `vf::check(cond, id)` assertions, `vf::reach(id)` are vacuity witnesses.
 #![cfg_attr(all(feature = "cbmc", not(feature = "lto_std")), no_std)]
-#![allow(clippy::all, dead_code, unused_macros, static_mut_refs)]
+#![allow(clippy::all, dead_code, unused_macros, static_mut_refs, dropping_copy_types, dropping_references)]
 
 pub mod vf;
 pub mod tok;
 pub mod model;
+#[cfg(kani)]
+mod kproofs;
 
 /// `harnesses! { fname: [3] [4]; gname: [3, 2]; }` instantiates the generic harness functions per
 /// capacity tuple, exports each as `h_<fname>_<a>[_<b>[_<c>]]` (engine L entry / replay name) and
